@@ -329,6 +329,21 @@ def _vselect(ip, st, t, a, rt):
     return V3(*[I.ite(m[i], p[i], q[i]) for i in range(3)])
 
 
+@reg('<glam::DVec3 as std::ops::Index<usize>>::index', '<glam::DVec3 as std::ops::IndexMut<usize>>::index_mut')
+def _v3_index(ip, st, t, a, rt):
+    """v[i] for a constant i: the component x / y / z (glam f64/dvec3.rs Index impl: 0, 1, 2; anything else panics)."""
+    ref, idx = a[0], a[1]
+    if not (isinstance(idx, RF) and idx.is_const()):
+        return NotImplemented
+    k = int(idx.const_value())
+    if k not in (0, 1, 2):
+        raise I.Diverge()
+    name = 'xyz'[k]
+    if isinstance(ref, I.Ref):
+        return I.Ref(I.LV(ref.lv.cell, ref.lv.path + (('f', name, 'f64', k),)), 'index_mut' in (t.get('callee') or ''))
+    return c3(ref)[k]
+
+
 @reg('<glam::DVec3 as std::default::Default>::default')
 def _vdefault(ip, st, t, a, rt):
     return V3(0, 0, 0)
@@ -1226,6 +1241,38 @@ def _array_iter_next(ip, st, t, a, rt):
     if k < len(arr_.fields):
         I.write_lv(a[0].lv, I.St(it.adt, None, {'arr': arr_, 'pos': RF.const(k + 1)}))
         return I.some(arr_.fields[k])
+    return I.NONE
+
+
+# --- iteration by reference over a small table of constants (`for &axis in &[1, 2]`): concrete while unrolling ---------------
+def _const_table(v):
+    v = deref(v)
+    if isinstance(v, I.St) and v.adt == 'array' and len(v.fields) <= 8 and all(isinstance(x, RF) and x.is_const() for x in v.fields.values()):
+        return v
+    return None
+
+
+@reg('core::slice::<impl [T]>::iter', "<&'a [T] as std::iter::IntoIterator>::into_iter", '<&[T] as std::iter::IntoIterator>::into_iter',
+     "core::slice::iter::<impl std::iter::IntoIterator for &'a [T]>::into_iter")
+def _const_slice_iter(ip, st, t, a, rt):
+    tab = _const_table(a[0])
+    if tab is None or not ip.unroll_limit:
+        return NotImplemented
+    return I.St('std::slice::IterOverConstants', None, {'arr': tab, 'pos': RF.const(0)})
+
+
+@regx(r"^<std::slice::Iter<'a, T> as std::iter::Iterator>::next$")
+def _const_slice_next(ip, st, t, a, rt):
+    if not isinstance(a[0], I.Ref):
+        return NotImplemented
+    it = I.read_lv(a[0].lv)
+    if not (isinstance(it, I.St) and it.adt == 'std::slice::IterOverConstants' and ip.unrolling):
+        return NotImplemented
+    k = int(it.fields['pos'].const_value())
+    arr_ = it.fields['arr']
+    if k < len(arr_.fields):
+        I.write_lv(a[0].lv, I.St(it.adt, None, {'arr': arr_, 'pos': RF.const(k + 1)}))
+        return I.some(ip.ref_to(arr_.fields[k]))
     return I.NONE
 
 
